@@ -34,12 +34,13 @@ def _classes():
 
     from jumanji.environments.logic.rubiks_cube.generator import Generator
 
-    @chex.dataclass
-    class LoggedState:
-        cube: chex.Array
-        step_count: chex.Array
-        key: chex.PRNGKey
-        scramble: chex.Array     # side channel: the flat actions of the scramble (never read by the env)
+    # the library's State plus one side-channel field (the flat actions of the scramble, never read by the env); built from
+    # the State's own annotations so that a field the library adds is carried along
+    from jumanji.environments.logic.rubiks_cube.types import State as _LibState
+
+    _ann = dict(getattr(_LibState, "__annotations__", {}))
+    _ann["scramble"] = chex.Array
+    LoggedState = chex.dataclass(type("LoggedState", (), {"__annotations__": _ann}))
 
     class ScrambleLog(Generator):
         """Delegates to the real generator and logs the scramble it is documented to apply."""
@@ -55,7 +56,7 @@ def _classes():
             st = self.inner(key)                           # the code under test
             _, scramble_key = jax.random.split(key)         # key derivation of Generator.__call__
             acts = self.inner.generate_actions_for_scramble(scramble_key)
-            return LoggedState(cube=st.cube, step_count=st.step_count, key=st.key, scramble=acts)
+            return LoggedState(**{f: getattr(st, f) for f in st.__dataclass_fields__}, scramble=acts)
 
     class LabelGen(Generator):
         """A key-independent cube whose stickers carry labels (state injection through the generator API)."""
